@@ -220,10 +220,17 @@ func (c *channelManager) updateAndGet(ctx context.Context, values map[string]map
 }
 
 func (c *channelManager) reportBranch(from string, skippedNodes []string) error {
+	// A skipped node is put on the work list once: reporting its skip to its successors a second
+	// time changes nothing, but a node used to be queued again for every report it received. A direct
+	// edge lists its target twice among the successors (data and control), so the list doubled with
+	// every level of a skipped region (a chain of 30 skipped nodes needed 2^30 entries), and it never
+	// ended when the successors form a cycle (a data-only input back to an earlier node).
+	queued := make(map[string]struct{}, len(skippedNodes))
 	var nKeys []string
 	for _, node := range skippedNodes {
 		skipped := c.channels[node].reportSkip([]string{from})
-		if skipped {
+		if _, ok := queued[node]; skipped && !ok {
+			queued[node] = struct{}{}
 			nKeys = append(nKeys, node)
 		}
 	}
@@ -235,7 +242,8 @@ func (c *channelManager) reportBranch(from string, skippedNodes []string) error 
 		}
 		for _, successor := range c.successors[key] {
 			skipped := c.channels[successor].reportSkip([]string{key})
-			if skipped {
+			if _, ok := queued[successor]; skipped && !ok {
+				queued[successor] = struct{}{}
 				nKeys = append(nKeys, successor)
 			}
 			// todo: detect if end node has been skipped?
